@@ -206,6 +206,33 @@ def rule_input_ownership(ctx, chk, rule):
 def rule_no_recursion(ctx, chk, rule, roots, what):
     scope = ctx.cg.reachable(roots)
     cyc = ctx.cg.cycles(scope)
+    # functions defined inside a function call each other by local name: cycles among those
+    nested_cyc = []
+    for f in scope:
+        inner = {d.name: d for d in ast.walk(f.node) if isinstance(d, (ast.FunctionDef, ast.AsyncFunctionDef)) and d is not f.node}
+        for st in ast.walk(f.node):
+            if isinstance(st, ast.Assign) and len(st.targets) == 1 and isinstance(st.targets[0], ast.Name) and isinstance(st.value, ast.Lambda):
+                inner[st.targets[0].id] = st.value
+        if not inner:
+            continue
+        edges = {nm: {c.func.id for c in ast.walk(d) if isinstance(c, ast.Call) and isinstance(c.func, ast.Name) and c.func.id in inner} |
+                     {a.id for c in ast.walk(d) if isinstance(c, ast.Call) for a in c.args if isinstance(a, ast.Name) and a.id in inner} for nm, d in inner.items()}
+        for nm in inner:
+            seen, todo = set(), list(edges[nm])
+            while todo:
+                g = todo.pop()
+                if g in seen:
+                    continue
+                seen.add(g)
+                todo.extend(edges[g])
+            if nm in seen:
+                nested_cyc.append((f, nm, inner[nm]))
+    for f, nm, d in nested_cyc:
+        chk.violation(rule, f.where(d), "`%s` (defined inside %s) calls itself: recursion depth grows with the size of the game graph "
+                      "(the interpreter's recursion limit is about 1000 frames)" % (nm, f.short),
+                      expected="no recursion reachable from %s" % what, found="local function %s is recursive" % nm, construct="%s.%s recursive" % (f.short, nm))
+    if nested_cyc and not cyc:
+        return len(scope)
     if cyc:
         for f in cyc:
             chk.violation(rule, f.where(), "%s lies on a call cycle: recursion depth grows with the size of the game graph "
@@ -271,12 +298,60 @@ def init_states_table(ctx):
     return out
 
 
+def _numeric_names(f):
+    """Local names / parameters of f that positively hold numbers: counters of range loops, and names that are added to /
+    subtracted from / divided by a number somewhere in f (a list or an object there would raise TypeError)."""
+    names = set()
+    for x in walk_no_nested_defs(f.node):
+        if isinstance(x, (ast.For, ast.comprehension)) and isinstance(x.iter, ast.Call) and call_name(x.iter) == "range" and isinstance(x.target, ast.Name):
+            names.add(x.target.id)
+
+    def numeric(e):
+        if isinstance(e, ast.Constant):
+            return isinstance(e.value, (int, float)) and not isinstance(e.value, bool)
+        if isinstance(e, ast.Name):
+            return e.id in names
+        if isinstance(e, ast.UnaryOp) and isinstance(e.op, ast.USub):
+            return numeric(e.operand)
+        if isinstance(e, ast.BinOp):
+            if isinstance(e.op, (ast.Sub, ast.Div, ast.FloorDiv, ast.Mod, ast.Pow)):
+                return numeric(e.left) or numeric(e.right)
+            if isinstance(e.op, ast.Add):
+                return numeric(e.left) or numeric(e.right)
+            if isinstance(e.op, ast.Mult):
+                return numeric(e.left) and numeric(e.right)
+        if isinstance(e, ast.Call) and call_name(e) in ("len", "int", "float", "round", "abs"):
+            return True
+        return False
+    changed = True
+    while changed:
+        changed = False
+        for x in walk_no_nested_defs(f.node):
+            new = set()
+            if isinstance(x, ast.BinOp) and isinstance(x.op, (ast.Add, ast.Sub, ast.Div, ast.FloorDiv, ast.Mod)) and numeric(x):
+                # every operand of a numeric sum / difference is a number
+                todo = [x]
+                while todo:
+                    y = todo.pop()
+                    if isinstance(y, ast.BinOp) and isinstance(y.op, (ast.Add, ast.Sub)):
+                        todo += [y.left, y.right]
+                    elif isinstance(y, ast.Name):
+                        new.add(y.id)
+            if isinstance(x, ast.Assign) and len(x.targets) == 1 and isinstance(x.targets[0], ast.Name) and numeric(x.value):
+                new.add(x.targets[0].id)
+            if new - names:
+                names |= new
+                changed = True
+    return names
+
+
 def identity_on_values(ctx, chk, rule, modules):
     """`x is y` / `x is not y` where neither side is None / True / False / Ellipsis / a class: identity of numbers and strings
     is an implementation detail (CPython shares ints only from -5 to 256), so the test silently changes its answer with the
     size of the values.  Returns the number of such comparisons."""
     n = 0
     for f in ctx.prog.all_funcs(modules):
+        numeric_names = _numeric_names(f)
         for c in walk_no_nested_defs(f.node):
             if not isinstance(c, ast.Compare):
                 continue
@@ -289,6 +364,26 @@ def identity_on_values(ctx, chk, rule, modules):
                         or (isinstance(x, ast.Name) and (x.id in ctx.prog.classes or x.id in ("NotImplemented",)))
                 if singleton(a) or singleton(b):
                     continue
+
+                def value_typed(x):
+                    # positively a number / string / tuple value (not an object whose identity means something): a literal, arithmetic,
+                    # or the result of a builtin that makes numbers / strings
+                    if isinstance(x, ast.Constant):
+                        return isinstance(x.value, (int, float, complex, str, bytes))
+                    if isinstance(x, ast.UnaryOp) and isinstance(x.op, (ast.USub, ast.UAdd)):
+                        return value_typed(x.operand)
+                    if isinstance(x, (ast.BinOp, ast.JoinedStr, ast.Tuple)):
+                        return True
+                    if isinstance(x, ast.Call) and call_name(x) in ("len", "int", "float", "str", "round", "abs", "sum", "min", "max", "repr", "tuple", "math.floor", "math.ceil"):
+                        return True
+                    if isinstance(x, ast.Name) and x.id in numeric_names:
+                        return True
+                    if isinstance(x, ast.Name) and x.id in f.mod.consts and isinstance(f.mod.consts[x.id], ast.Constant) and \
+                            isinstance(f.mod.consts[x.id].value, (int, float, str)) and not isinstance(f.mod.consts[x.id].value, bool):
+                        return True
+                    return False
+                if not (value_typed(a) or value_typed(b)):
+                    continue          # identity of objects (nodes, types, sentinels) is a legitimate question
                 n += 1
                 chk.violation(rule, f.where(c), "`%s` compares identity, not value: equal numbers / strings are the same object only by accident of the interpreter "
                               "(small integers up to 256), so the branch taken depends on the size of the operands" % src(c),
